@@ -1492,10 +1492,18 @@ fn eval_call(
                 match v {
                     Escape::None =>
                         value::new_null(),
-                    Escape::Break{..} =>
-                        return Err(Error::BreakOutsideLoop),
-                    Escape::Continue{..} =>
-                        return Err(Error::ContinueOutsideLoop),
+                    Escape::Break{loc: (line, col)} =>
+                        return Err(Error::AtLoc{
+                            source: Box::new(Error::BreakOutsideLoop),
+                            line,
+                            col,
+                        }),
+                    Escape::Continue{loc: (line, col)} =>
+                        return Err(Error::AtLoc{
+                            source: Box::new(Error::ContinueOutsideLoop),
+                            line,
+                            col,
+                        }),
                     Escape::Return{value, ..} =>
                         value,
                 }
